@@ -24,7 +24,7 @@ CONSTANTS Mode, Rots, Full, DExp
 
 AnnPats   == <<"none", "empty", "one", "rep2", "rep_inter", "rep_same", "multi">>
 CmtPats   == <<"none", "line", "block", "unix", "two", "trail", "both", "blockml">>
-IdPats    == <<"explicit", "implicit", "mixed", "gap", "neg">>
+IdPats    == <<"explicit", "implicit", "mixed", "gap", "neg", "desc">>
 EnumPats  == <<"implicit", "explicit", "mixed", "neg", "hex">>
 NodeKinds == <<"struct", "union", "exception", "field", "enum", "enumvalue", "typedef", "const", "service",
                "method", "arg", "throw">>
